@@ -15,18 +15,21 @@ Theorem C18_versions_and_suite :
   gen_device_response_version = bytes_of_string "1.0" /\ gen_device_request_version = bytes_of_string "1.0" /\
   gen_engagement_version = bytes_of_string "1.0" /\ gen_engagement_cipher_suite = 1.
 Proof. exact versions_are_iso. Qed.
+Print Assumptions C18_versions_and_suite.
 
 Theorem C18_status_tables :
   map snd gen_device_response_status = response_status_codes /\
   map snd gen_session_data_status = session_status_codes /\
   gen_transport_type = [("NFC", 1); ("BLE", 2); ("WIFI", 3)].
 Proof. exact (conj (proj1 response_status_table_is_iso) (conj (proj1 session_status_table_is_iso) transport_types_are_iso)). Qed.
+Print Assumptions C18_status_tables.
 
 (* the table CoseKey::signature_algorithm (translated from the source) is the RFC 8152 / 9053
    assignment, for every curve the Rust enums have: same algorithm, and none where the RFCs have none *)
 Theorem C18_sig_alg_matches_key : forall k : key_curve, In k all_key_curves ->
   exists kty crv, curve_ids k = Some (kty, crv) /\ signature_algorithm k = spec_sig_alg kty crv.
 Proof. exact sig_alg_table_is_rfc. Qed.
+Print Assumptions C18_sig_alg_matches_key.
 
 (* ---- session establishment and session data ---- *)
 
@@ -34,17 +37,20 @@ Proof. exact sig_alg_table_is_rfc. Qed.
 Theorem C18_conforms_ephemeral_key : forall what x y, blen x = 32 -> blen y = 32 ->
   cose_key what (compose_ephemeral_key x y) = Ok.
 Proof. exact cose_key_ephemeral. Qed.
+Print Assumptions C18_conforms_ephemeral_key.
 
 Theorem C18_conforms_session_establishment : forall (key : cbor) (ciphertext : bytes),
   embeddable key -> cose_key "EReaderKey" key = Ok ->
   session_establishment (compose_session_establishment key ciphertext) = Ok.
 Proof. exact session_establishment_ok. Qed.
+Print Assumptions C18_conforms_session_establishment.
 
 (* the SessionData the device finalises (ciphertext, or status only when encryption failed) and the
    SessionData the reader sends with a request *)
 Theorem C18_conforms_session_data : forall (enc : option bytes) (ct : bytes),
   session_data (finalize_session_data enc) = Ok /\ session_data (new_request_session_data ct) = Ok.
 Proof. intros enc ct. exact (conj (session_data_finalized enc) (session_data_new_request ct)). Qed.
+Print Assumptions C18_conforms_session_data.
 
 (* data present iff no status, for every status code of the source's table *)
 Theorem C18_session_data_data_xor_status : forall (data : option bytes) (st : option N),
@@ -53,6 +59,7 @@ Theorem C18_session_data_data_xor_status : forall (data : option bytes) (st : op
   (session_data (compose_session_data data st) = Ok ->
    (data = None -> st <> None) /\ (st = Some 10 \/ st = Some 11 -> data = None)).
 Proof. intros data st. exact (conj (session_data_general data st) (session_data_one_of data st)). Qed.
+Print Assumptions C18_session_data_data_xor_status.
 
 (* ---- device request (reader.rs build_request) ---- *)
 
@@ -61,18 +68,21 @@ Theorem C18_conforms_device_request : forall nss : req_namespaces,
   embeddable (compose_items_request gen_request_doc_type nss) ->
   device_request (build_request nss) = Ok.
 Proof. exact build_request_ok. Qed.
+Print Assumptions C18_conforms_device_request.
 
 (* the well-formedness half of [embeddable] follows from the names being byte strings of valid UTF-8 *)
 Theorem C18_items_request_wf : forall nss : req_namespaces,
   Forall (fun n => name_ok (fst n) = true /\ Forall (fun e => name_ok (fst e) = true) (snd n)) nss ->
   wf (compose_items_request gen_request_doc_type nss) = true.
 Proof. exact wf_items_request. Qed.
+Print Assumptions C18_items_request_wf.
 
 (* ---- device response ---- *)
 
 Theorem C18_conforms_device_signed : forall (k : key_curve) (alg : Z) (sg : bytes),
   signature_algorithm k = Some alg -> device_signed (compose_device_signed alg sg) = Ok.
 Proof. intros k alg sg H. apply device_signed_ok. eapply signature_algorithm_values. exact H. Qed.
+Print Assumptions C18_conforms_device_signed.
 
 (* deviceAuth holds exactly one of deviceSignature and deviceMac: the composed one does, and the
    validator accepts nothing else *)
@@ -85,6 +95,7 @@ Theorem C18_device_auth_one_of :
   (forall v, device_auth v = Ok ->
              exists k x, v = CMap [(k, x)] /\ (k = ctext "deviceSignature" \/ k = ctext "deviceMac")).
 Proof. exact (conj device_auth_one_of device_auth_validator_one_of). Qed.
+Print Assumptions C18_device_auth_one_of.
 
 (* a finalised document: valid issuer-signed part whose MSO carries a device key of curve d_key *)
 Theorem C18_conforms_document : forall (d : signed_doc) (v : cbor) (kc : N * Z),
@@ -95,12 +106,14 @@ Theorem C18_conforms_document : forall (d : signed_doc) (v : cbor) (kc : N * Z),
   (d_errors d = [] \/ errors_nonempty_distinct (d_errors d)) ->
   document v = Ok.
 Proof. exact document_ok. Qed.
+Print Assumptions C18_conforms_document.
 
 (* normal responses (any number of documents, including none; document errors for docTypes not held) *)
 Theorem C18_conforms_device_response : forall (docs : list cbor) (error_doc_types : list bytes),
   Forall (fun v => document v = Ok) docs ->
   device_response (ok_response docs error_doc_types) = Ok.
 Proof. exact ok_response_ok. Qed.
+Print Assumptions C18_conforms_device_response.
 
 (* error responses: every status of the source's table, no documents, no document errors *)
 Theorem C18_conforms_error_response : forall name, In name (map fst gen_device_response_status) ->
@@ -110,6 +123,7 @@ Theorem C18_conforms_error_response : forall name, In name (map fst gen_device_r
   | _ => False
   end.
 Proof. intros name H. exact (conj (error_response_ok name H) (error_response_no_documents name)). Qed.
+Print Assumptions C18_conforms_error_response.
 
 (* ---- device engagement ---- *)
 
@@ -119,11 +133,13 @@ Theorem C18_conforms_engagement : forall (key : cbor) (methods : option (list re
   match methods with Some ms => ms <> [] /\ Forall method_ok ms | None => True end ->
   device_engagement (compose_engagement key methods server) = Ok.
 Proof. exact engagement_ok. Qed.
+Print Assumptions C18_conforms_engagement.
 
 (* the NFC length ranges the Rust types guarantee are the ISO ranges, so [nfc_iso_range] inside
    [method_ok] holds for every NfcOptions value the library can hold *)
 Theorem C18_engagement_nfc_domain : forall o : nfc_opts, nfc_rust_domain o = true -> nfc_iso_range o.
 Proof. exact nfc_rust_domain_iso. Qed.
+Print Assumptions C18_engagement_nfc_domain.
 
 (* ---- from composed values to emitted bytes: the byte-level validator (what the harness runs on the
    real messages) decodes the encoding of a composed message back to that message ---- *)
@@ -131,6 +147,7 @@ Proof. exact nfc_rust_domain_iso. Qed.
 Theorem C18_bytes_level : forall (k : kind) (v : cbor), embeddable v ->
   validate_bytes k (encode v) = validator k v.
 Proof. exact validate_bytes_encode. Qed.
+Print Assumptions C18_bytes_level.
 
 (* ---- the hypotheses are inhabited ---- *)
 
